@@ -508,7 +508,10 @@ def monitorOp (mu : Mon) (prev : Args) (toks : List String) (implOk : Bool) (out
       -- the point query and the listing show exactly the unexpired stored allowances
       (let live := cRaw.filter fun p => !p.2.expires.isExpired mu.blk
        let lst := (cur.list "lallow").filterMap parseAllowEntry
-       if lst != live then [mk "C08" "C08/listing-vs-stored" s!"listing={cur.str "lallow"} stored={cur.str "rallow"}"] else [])
+       if lst != live then [mk "C08" "C08/listing-vs-stored" s!"listing={cur.str "lallow"} stored={cur.str "rallow"}",
+                            -- the same fact as a statement about the listing (C20: every current item exactly once, in key
+                            -- order): the items collected by paging AllAllowances are the stored, unexpired allowances
+                            mk "C20" "C20/allowances-listing-vs-current-items" s!"listing={cur.str "lallow"} stored={cur.str "rallow"}"] else [])
     -- ghost ledger
     let mu := if fresh || !mu.sub || !implOk then mu else
       if kind == "increase_allowance" then
@@ -584,7 +587,9 @@ def monitorOp (mu : Mon) (prev : Args) (toks : List String) (implOk : Bool) (out
           | some o, some n =>
             if (denomsOf [o.balance, n.balance]).all fun d => decide (NativeBalance.total n.balance d ≤ NativeBalance.total o.balance d)
             then none else some (mk "C17" "C17/allowance-raised-by-subkey" s!"allowance of {k} raised by its own Execute")
-          | _, none => none
+          -- … nor deletes the record (with it the deadline the admins set): theorem C08.own_spend_only_lowers
+          | some _, none => some (mk "C17" "C17/allowance-removed-by-subkey" s!"allowance record of {k} removed by its own Execute")
+          | none, none => none
         else some (mk "C17" "C17/grant-by-non-admin" s!"allowance of {k} changed by {kind} from {snd}")) ++
       (changedPerm.filterMap fun k =>
         if implOk && wasAdmin then none
